@@ -41,6 +41,12 @@ Theorem C10_leaf_total : forall soap k s,
   safe (read_leaf soap g_xml_enum_member k s) /\ safe (read_leaf soap g_inbase_enum_member k s).
 Proof. intros. split; [apply read_leaf_safe_xml | apply read_leaf_safe_inbase]. Qed.
 
+(** ---- binary data (ByteArray, File): from_base64 / from_urlsafe_base64 / from_hex on text of every
+    length in every encoding, and on a byte string (YAML !!binary, the bin type of MessagePack) ---- *)
+Theorem C10_binary_total : forall e s,
+  safe (read_bytes e s) /\ safe (from_urlsafe_bytes s) /\ safe (from_hex s).
+Proof. exact binary_total. Qed.
+
 (** ---- document -> call, through ServerBase: for ALL documents, ALL well-formed applications ---- *)
 Theorem C10_xml_total : forall soft A rq,
   wf_app A = true -> xml_request_ok rq -> good (xml_server soft A rq) = true.
@@ -143,6 +149,19 @@ Example C10_ex_leaf :
   /\ read_leaf false g_xml_enum_member LTime [50; 53; 58; 48; 48; 58; 48; 48] = Raise EValidationError t_ClientValidationError
   /\ read_leaf false g_xml_enum_member LDateTime [50; 48; 50; 48; 45; 48; 49; 45; 48; 50; 84; 48; 51; 58; 48; 52; 58; 48; 53; 43; 57; 57; 58; 48; 48] = Raise EValidationError t_ClientValidationError
   /\ match read_leaf false g_xml_enum_member LDateTime [50; 48; 50; 48; 45; 48; 49; 45; 48; 50; 84; 48; 51; 58; 48; 52; 58; 48; 53; 90] with Ret _ => True | _ => False end.
+Proof. vm_compute. repeat split; auto. Qed.
+(** malformed url-safe base64 of 99 and of 101 characters (4n+3 without padding, 4n+1) is answered with
+    ValidationError, 100 characters decode to 75 bytes; non-hex text of 100 characters and an odd number
+    of hex digits likewise; a non-ASCII letter is refused by base64 and skipped by url-safe base64 *)
+Example C10_ex_binary :
+  read_bytes BUrl (repeat 65 99) = Raise EValidationError t_ClientValidationError
+  /\ read_bytes BUrl (repeat 65 101) = Raise EValidationError t_ClientValidationError
+  /\ read_bytes BUrl (repeat 65 100) = Ret (VBytes (repeat 0 75))
+  /\ read_bytes BHex (repeat 122 100) = Raise EValidationError t_ClientValidationError
+  /\ read_bytes BHex (repeat 48 101) = Raise EValidationError t_ClientValidationError
+  /\ read_bytes BBase64 [89; 87; 74; 106; 233] = Raise EValidationError t_ClientValidationError
+  /\ read_bytes BUrl [89; 87; 74; 106; 233] = Ret (VBytes [97; 98; 99])
+  /\ read_bytes BUrl [89; 87; 74; 106; 55296] = Raise EValidationError t_ClientValidationError.
 Proof. vm_compute. repeat split; auto. Qed.
 Example C10_ex_xml :
   wf_app ex_app = true /\ xml_request_ok (ex_xreq [53])
